@@ -32,6 +32,8 @@ def generate(rng, tier="quick"):
         # keep sanitised names distinct most of the time (collisions are a listed finding)
         while len({re.sub(r"[^_a-zA-Z0-9]", "_", x) for x in names}) < len(names):
             names = rng.sample(ODD_SIDS, len(tbl["cols"]))
+    if tbl.get("dtypes"):
+        tbl["dtypes"] = {new: tbl["dtypes"][old] for new, old in zip(names, tbl["cols"]) if old in tbl["dtypes"]}
     tbl["cols"] = {new: v for new, v in zip(names, tbl["cols"].values())}
     fault_kinds = () if rng.chance(0.5) else tuple(rng.subset(("F1", "F2", "F3", "F5", "F6"), 0.4, at_least=1))
     wl_sids = wl.SIDS
